@@ -10,7 +10,7 @@ From Coq Require Import ZArith List String Ascii Permutation Lia.
 Import ListNotations.
 From Coq Require Import Sorted Bool.
 From PV Require Import Exchange.Arith Exchange.ReqAttr Exchange.FeeCheck Exchange.AdmitSpec Proofs.C20Proofs
-     Proofs.C20Defs Proofs.C20Coins Proofs.C20Norm Proofs.C20Updates Proofs.C20Fills Proofs.C20Quotes Proofs.C20QuoteSpec.
+     Proofs.C20Defs Proofs.C20Coins Proofs.C20Norm Proofs.C20Updates Proofs.C20Fills Proofs.C20Quotes Proofs.C20QuoteSpec Proofs.C20Create.
 Open Scope Z_scope.
 
 (** A flat fee requirement (order / commitment creation, seller settlement flat fee) is passed
@@ -250,6 +250,38 @@ Theorem C20_config_updates_keep_market_ok : forall (ops : list cfg_op) m,
 Proof. exact steps_ok. Qed.
 Print Assumptions C20_config_updates_keep_market_ok.
 
+(** ** A market created over left-over entries *)
+
+(** None of the configuration endpoints checks that the market exists, and the governance authority
+    passes every permission check: MsgGovCloseMarket, MsgMarketUpdateAcceptingOrders / UserSettle /
+    AcceptingCommitments / IntermediaryDenom, MsgGovManageFees and MsgMarketManageReqAttrs sent for an
+    id that is not a market leave entries under it ([pre_step], [run_pre]; [C20_earlier_entries_exist]).
+    storeMarket (transcribed setter by setter: deleteAll + writes for the tables, write-or-delete
+    for the indicator entries, bips, intermediary denom and the lists) does not depend on them ... *)
+Theorem C20_store_market_ignores_old : forall old1 old2 m, store_market old1 m = store_market old2 m.
+Proof. exact store_market_ignores_old. Qed.
+Print Assumptions C20_store_market_ignores_old.
+
+(** ... so for a request that passes Market.Validate the created market is the one of
+    [create_market], and what the handlers then decide is the declarative rule evaluated on the
+    creation request alone, whatever was sent for the id before. *)
+Theorem C20_created_market_ignores_earlier_entries : forall (pre : list pre_op) m accs a,
+  market_ok m ->
+  store_market (run_pre pre) m = create_market m /\
+  admits_msg (store_market (run_pre pre) m) accs a =
+  admit_spec_msg (is_some (create_market m)) m accs a.
+Proof.
+  intros pre m accs a W. split;
+    [exact (store_market_is_create (run_pre pre) m W)|exact (created_market_ignores_earlier_entries pre m accs a W)].
+Qed.
+Print Assumptions C20_created_market_ignores_earlier_entries.
+
+Theorem C20_earlier_entries_exist :
+  let s := run_pre [PreClose; PreUserSettle true] in
+  m_accepting_orders (s_mkt s) = false /\ m_user_settle (s_mkt s) = true.
+Proof. exact earlier_entries_exist. Qed.
+Print Assumptions C20_earlier_entries_exist.
+
 (** ** User fills, in full *)
 
 (** [carries raw accs]: every attribute of the list as written is matched (level-wise, after
@@ -282,7 +314,9 @@ Proof.
 Qed.
 Print Assumptions C20_fill_admission_iff.
 
-(** A partially open market: accepting orders off, or user settlement off, refuses every fill. *)
+(** A partially open market: accepting orders off, or user settlement off, refuses every fill -
+    whoever sends it ([accs] is arbitrary, and nothing else about the sender enters [admits_msg]:
+    holding market permissions, even PERMISSION_SETTLE, or being the authority is no exception). *)
 Theorem C20_fills_refused_when_closed : forall m s accs a,
   stored_of m s -> (m_accepting_orders m = false \/ m_user_settle m = false) ->
   match a with AFillBids _ _ _ _ | AFillAsks _ _ _ _ => admits_msg (Some s) accs a = false | _ => True end.
